@@ -1,16 +1,18 @@
 """C19 - channel URIs: what the builder is told is what the parser reads back."""
 import itertools
+import os
 
 from vlib import core
 from vlib.term import to_coq, z
 
 ID = 'C19'
 PROP_FILE = 'Props/C19.v'
-EVAL_FILES = ['Oracle/C19Oracle.v', 'Model/UriBuilder.v']
+EVAL_FILES = ['Oracle/C19Oracle.v', 'Model/UriBuilder.v', 'Generated/GenUriParser.v']
 CRATES = ['c19']
 MODES = ['debug']     # nothing in the two files depends on overflow checks or optimisation; the model has no mode
 IMPORTS = ('Require Import V.Base.MachineInt V.Model.UriTypes V.Generated.GenUriTables V.Model.Uri V.Model.UriBuilder '
-           'V.Model.UriSpec V.Oracle.C19Oracle.')
+           'V.Model.UriSpec V.Oracle.C19Oracle V.Model.UriParserSem V.Generated.GenUriParser.')
+K1_DEPENDS = ['c19parser_translate']    # Generated/GenUriParser.v (parse / fmt / add_session_id as syntax trees)
 PER_CASE_TIMEOUT = 5.0
 RULE = ('kinds: pv = string of the URI grammar built from (prefix in {"", aeron-spy}, media, 0..20 key=value pairs with duplicate keys, '
         'empty values, "=" "?" ":" and non-ASCII characters inside keys and values); p = malformed stream (boundary strings around the two '
@@ -19,7 +21,12 @@ RULE = ('kinds: pv = string of the URI grammar built from (prefix in {"", aeron-
         '{MIN,-1,0,1,MAX,random}; a = put/remove/get/get_or_default/contains_key sequences on a parsed uri; b = builder: every ordered pair '
         'of the 28 setters after media(), every setter alone with each of its boundary values, and random sequences of 0..14 setters '
         '(values: boundary integers of each range check, legal and illegal prefix/media/control-mode, strings with ":" "=" "?" and non-ASCII; '
-        'a few with "|", outside the property, for the correspondence only). Non-trivial: a parse case whose string is accepted with at '
+        'a few with "|", outside the property, for the correspondence only). Corners, generated systematically (CORNERS, counted in the '
+        'evidence): duplicate keys (adjacent, separated, threefold), empty values (first / middle / last), "=" ":" "?" inside values (at '
+        'the start, in the middle, at the end, doubled; IPv6 endpoints), "?" ":" inside keys, 2/3/4-byte characters in key, value and '
+        'media, values longer than 48 characters, every pair of those; malformed: "|" at the end / doubled / first, "?" doubled or '
+        'trailing, key without "=", separators in the media; and every string of length <= 3 (thorough: 5) over {a ? = | :} appended to '
+        '"aeron:", "aeron:udp?", "aeron:udp?k=" (each parser state exhaustively at small scope). Non-trivial: a parse case whose string is accepted with at '
         'least one parameter, a builder case with at least two distinct setters. Distinct = distinct case tuples.')
 ASSUMPTIONS = [
     'builder string arguments contain no "|" (the builder does not escape; such calls are outside the property and only compared with the model)',
@@ -28,6 +35,10 @@ ASSUMPTIONS = [
     'the iteration order of the HashMap is unconstrained: theorems hold for every permutation, the harness observes the one that occurred',
 ]
 TRUSTED = [
+    'K1 (C19, parser side): tools/props/c19parser_translate.py transcribes the syntax of ChannelUri::parse / Display::fmt / add_session_id '
+    '(statement forms only; fails closed on anything else, emitting a stuck placeholder); what the statements mean is the Coq interpreter '
+    'Model/UriParserSem.v (HashMap::insert = association-list insert, std::mem::take, String::push, str::strip_prefix, chars().enumerate(), '
+    '.len() of an ASCII constant, the From conversions of utils/errors.rs into the two error classes)',
     'K1 (C19): tools/props/c19_translate.py - a parser for the subset of Rust the two files are written in; it fails (never guesses) on '
     'any statement it does not understand; the fixed parts of build() and the helpers bool_to_string / prefix_tag / Value::new are compared token by token',
     'harness/c19 enumerates the keys of a parsed ChannelUri through contains_key() on every substring (short inputs) and every '
@@ -288,6 +299,100 @@ def gen_api(rng):
             ops.append([o, k])
     return {'kind': 'a', 's': s, 'ops': ops}
 
+# ---- corners of the grammar, generated systematically --------------------------------------------------------------
+LONGV = 'v' * 30 + ':' + 'w' * 30
+CORNERS = {
+    'dup-adjacent': [['a', '1'], ['a', '2']],
+    'dup-separated': [['a', '1'], ['b', 'x'], ['a', '2']],
+    'dup-threefold': [['k', '1'], ['k', ''], ['z', '0'], ['k', '3']],
+    'dup-same-value': [['a', '1'], ['a', '1']],
+    'empty-value-first': [['e', ''], ['b', '2']],
+    'empty-value-middle': [['a', '1'], ['e', ''], ['b', '2']],
+    'empty-value-last': [['a', '1'], ['e', '']],
+    'empty-value-only': [['e', '']],
+    'eq-in-value-start': [['x', '=b']],
+    'eq-in-value-middle': [['x', 'a=b'], ['y', '1']],
+    'eq-in-value-end': [['x', 'a=']],
+    'eq-in-value-doubled': [['x', '=='], ['y', 'a==b=']],
+    'colon-in-value': [['endpoint', 'localhost:40123']],
+    'colon-in-value-ipv6': [['endpoint', '[fe80::1]:40123'], ['interface', '[::1]']],
+    'colon-in-value-start': [['x', ':a']],
+    'colon-in-value-end': [['x', 'a:'], ['y', '::']],
+    'colon-only-value': [['x', ':']],
+    'qmark-in-value-start': [['x', '?a']],
+    'qmark-in-value-middle': [['x', 'a?b'], ['alias', 'who?me']],
+    'qmark-in-value-end': [['x', 'a?']],
+    'qmark-in-value-doubled': [['x', '??'], ['y', '?']],
+    'qmark-in-key': [['a?b', '1'], ['?', '2']],
+    'colon-in-key': [['a:b', '1'], [':', '2']],
+    'utf8-2byte': [['\u00e9', 'caf\u00e9'], ['k', '\u07ff']],
+    'utf8-3byte': [['\u20ac', '1\u20ac'], ['k', '\u0800\uffff']],
+    'utf8-4byte': [['\U0001d11e', '\U0010ffff'], ['k', 'a\U0001d11eb']],
+    'utf8-combining-nul': [['e\u0301', '\x00'], ['\x00', 'e\u0301']],
+    'long-value': [['endpoint', LONGV], ['a', '1']],
+    'long-key': [['k' * 60, 'v']],
+    'all-separators-in-value': [['x', '?=:?=:'], ['y', ':=?']],
+}
+MALFORMED_CORNERS = {
+    'bar-at-end': ['aeron:udp?a=b|', 'aeron:udp?a=|', 'aeron:udp?a=b|c=d|', 'aeron-spy:aeron:ipc?a=b|'],
+    'bar-doubled': ['aeron:udp?a=b||c=d', 'aeron:udp?a=b||'],
+    'bar-first': ['aeron:udp?|a=b', 'aeron:udp|', 'aeron:|udp'],
+    'qmark-doubled': ['aeron:udp??a=b', 'aeron:udp?a=b?c=d', 'aeron:udp??'],
+    'qmark-trailing': ['aeron:udp?', 'aeron:ipc?', 'aeron-spy:aeron:udp?', 'aeron:?'],
+    'key-without-eq': ['aeron:udp?a', 'aeron:udp?a=b|c', 'aeron:udp?a:b'],
+    'eq-trailing': ['aeron:udp?a=', 'aeron:udp?a=b|c='],
+    'separator-in-media': ['aeron:udp:', 'aeron:u:dp', 'aeron:udp=', 'aeron:=udp', 'aeron::', 'aeron-spy:aeron:udp:?a=b'],
+    'utf8-media': ['aeron:\u00e9', 'aeron:\u00e9?a=b', 'aeron:ud\u00e9:', 'aeron:\U0001d11e=', 'aeron:\u20ac\U0001d11e|'],
+    'utf8-near-prefix': ['a\u00e9ron:udp', 'aeron\uff1audp', 'aeron-spy\uff1aaeron:udp', '\ufeffaeron:udp'],
+    'empty-key': ['aeron:udp?=', 'aeron:udp?=v', 'aeron:udp?a=b|=', 'aeron:udp?a=b|=c'],
+}
+SMALL_ALPHABET = 'a?=|:'
+SMALL_HEADS = ['aeron:', 'aeron:udp?', 'aeron:udp?k=']
+
+
+def gen_corners(rng, tier):
+    cases = []
+    names = sorted(CORNERS)
+    for n in names:
+        for prefix, media in (('', 'udp'), (SPY, 'ipc'), ('', '')):
+            cases.append({'kind': 'pv', 'prefix': prefix, 'media': media, 'kvs': [list(x) for x in CORNERS[n]], 'corner': [n]})
+    # every pair of corners in one URI (one order; both orders in the thorough tier)
+    for i, a in enumerate(names):
+        for b in names[i + 1:]:
+            first, second = (a, b) if rng.random() < 0.5 else (b, a)
+            cases.append({'kind': 'pv', 'prefix': rng.choice(['', SPY]), 'media': rng.choice(['udp', 'ipc']),
+                          'kvs': [list(x) for x in CORNERS[first] + CORNERS[second]], 'corner': [a, b]})
+            if tier == 'thorough':
+                cases.append({'kind': 'pv', 'prefix': rng.choice(['', SPY]), 'media': rng.choice(['udp', 'ipc']),
+                              'kvs': [list(x) for x in CORNERS[second] + CORNERS[first]], 'corner': [a, b]})
+    for n in sorted(MALFORMED_CORNERS):
+        for s in MALFORMED_CORNERS[n]:
+            cases.append({'kind': 'p', 's': s, 'corner': [n]})
+    # add_session_id and the map API on the corner URIs
+    for n in names:
+        s = valid_string({'prefix': '', 'media': 'udp', 'kvs': CORNERS[n]})
+        cases.append({'kind': 's', 's': s, 'sid': rng.choice(I32), 'corner': [n]})
+        k = CORNERS[n][0][0]
+        cases.append({'kind': 'a', 's': s, 'ops': [['get', k], ['has', k], ['put', k, 'new:=?'], ['get', k], ['remove', k], ['has', k]], 'corner': [n]})
+    # each parser state exhaustively at small scope
+    depth = 5 if tier == 'thorough' else 3
+    for head in SMALL_HEADS:
+        for n in range(depth + 1):
+            for t in itertools.product(SMALL_ALPHABET, repeat=n):
+                cases.append({'kind': 'p', 's': head + ''.join(t), 'corner': ['small-scope']})
+    return cases
+
+
+LAST_CORNERS = {}
+
+
+def corner_counts(cases):
+    cnt = {}
+    for c in cases:
+        for n in c.get('corner', []):
+            cnt[n] = cnt.get(n, 0) + 1
+    return cnt
+
 
 def generate(rng, tier):
     big = tier == 'thorough'
@@ -311,7 +416,10 @@ def generate(rng, tier):
         cases.append({'kind': 's', 's': s, 'sid': sid})
     for _ in range(200 if not big else 3000):
         cases.append(gen_api(rng))
+    cases += gen_corners(rng, tier)
     cases += gen_builder(rng, tier)
+    LAST_CORNERS.clear()
+    LAST_CORNERS.update(corner_counts(cases))
     return cases
 
 
@@ -370,9 +478,17 @@ def capi(ops):
     return '[' + '; '.join('%s %s' % (API[o[0]], ' '.join(cstr(x) for x in o[1:])) for o in ops) + ']'
 
 
+# C19_MODEL=generated: the model of the `p` / `pv` cases is the interpreter run on the translated trees (equal to parse_obs by
+# C19_k1_observations on an unchanged tree). Used to test the interpreter: on a changed source that still translates it must
+# agree with the changed implementation (docs/reports/C19.md, "fidelity of the interpreter").
+GENERATED_MODEL = os.environ.get('C19_MODEL') == 'generated'
+
+
 def model_expr(c, mode):
     k = c['kind']
     if k in ('p', 'pv'):
+        if GENERATED_MODEL:
+            return 'gparse_obs gen_parser gen_display %s' % cstr(case_string(c))
         return 'parse_obs %s' % cstr(case_string(c))
     if k == 's':
         return 'sid_obs %s %s' % (cstr(c['s']), z(c['sid']))
@@ -494,4 +610,20 @@ def extra_checks(run):
     from vlib import term
     detail = 'tables_ok gen_tables = %s; setter rows not as specified: %s; fields assigned by more than one parameter setter: %s; emit rows / parameters not printed under their protocol name: %s' % (
         term.show(v[1][0]), term.show(v[1][1]), term.show(v[1][2]), term.show(v[1][3]))
-    return [(ok, 'K1 tables_ok (setter and emit tables read off channel_uri_string_builder.rs)', detail)]
+    out = [(ok, 'K1 tables_ok (setter and emit tables read off channel_uri_string_builder.rs)', detail)]
+    # K1, parser side: the three functions of channel_uri.rs were translated (the proof that the translated trees are the model
+    # is C19_k1_parser / C19_k1_display / C19_k1_session_id of Props/C19.v)
+    vals = core.coq_eval('C19_parser_k1', IMPORTS,
+                         ['(gen_parser_ok, gen_display_ok, sid_ok gen_sid, gen_accessors_ok)'])
+    flags = [x == ('app', 'true', []) for x in vals[0][1]]
+    out.append((all(flags), 'K1 parser side translated (ChannelUri::parse, Display::fmt, add_session_id -> Generated/GenUriParser.v)',
+                'parse: %s; fmt: %s; add_session_id: %s; accessors prefix/media/get/get_or_default/put/remove/contains_key: %s' % tuple(
+                    'as expected' if f else 'CHANGED / NOT UNDERSTOOD' for f in flags)))
+    # the corners of the grammar the task names were all generated
+    want = sorted(CORNERS) + sorted(MALFORMED_CORNERS) + ['small-scope']
+    missing = [n for n in want if not LAST_CORNERS.get(n)]
+    out.append((not missing, 'generated corners of the URI grammar',
+                '%d corner classes, missing: %s; cases per class min %d; small-scope strings %d; classes: %s' % (
+                    len(want), missing or 'none', min([LAST_CORNERS.get(n, 0) for n in want] or [0]), LAST_CORNERS.get('small-scope', 0),
+                    ' '.join(want))))
+    return out
